@@ -513,6 +513,23 @@ func handDocs() []*doc {
 		t.xref(6, "/Root 1 0 R", []int{1, 2, 3, 4, 5}, true)
 		res = append(res, &doc{name: "hand-big-composites", class: "hand:composites-longer-than-the-scanner-buffer", data: t.buf.Bytes(), refs: R(1, 2, 3, 4, 5)})
 	}
+	{ // three short revisions: the last 1024 bytes of the file contain several
+		// startxref / %%EOF / trailer keywords, each revision changes object 3 and
+		// the Info dictionary
+		t := newTextDoc("1.4")
+		t.obj(1, "<< /Type /Catalog /Pages 2 0 R >>")
+		t.obj(2, pagesObj)
+		t.obj(3, "(rev 1)")
+		t.obj(4, "<< /Title (one) >>")
+		p1 := t.xref(5, "/Root 1 0 R /Info 4 0 R", []int{1, 2, 3, 4}, true)
+		t.obj(3, "(rev 2)")
+		t.obj(5, "<< /Title (two) >>")
+		p2 := t.xref(6, fmt.Sprintf("/Root 1 0 R /Info 5 0 R /Prev %d", p1), []int{3, 5}, false)
+		t.obj(3, "(rev 3)")
+		t.obj(6, "<< /Title (three) >>")
+		t.xref(7, fmt.Sprintf("/Root 1 0 R /Info 6 0 R /Prev %d", p2), []int{3, 6}, false)
+		res = append(res, &doc{name: "hand-three-revisions", class: "hand:three-short-revisions", data: append([]byte(nil), t.buf.Bytes()...), refs: R(1, 2, 3, 4, 5, 6)})
+	}
 	return res
 }
 
